@@ -277,7 +277,7 @@ PROPS = {
         "claim": "Kernel-checked: for tasks that write only their own region and read only it and a frozen area, EVERY schedule leaves each region exactly as the task's solo run (so the result is schedule-independent); the reference-set theorem for the regenerated indexAlpha gives the locality premise (a cross-lane reference never points into the slice being written; a same-lane reference is strictly earlier). "
                  "Go side: lanes 2..8 × 3 variants × 2 versions × memory {8p, 8p+3, 32p} × time 1..3 × GOMAXPROCS {1,2,3,16} with competing goroutines, on the purego build under the race detector; keys equal the sequential Lean model; goroutine count restored.",
         "note": "Kernel-checked: the reference-set theorems about the generated indexAlpha (refset_in_memory, refset_cross_lane_completed, refset_same_lane_earlier), the generic phase theorem (schedule_independent, complete_schedules_agree, complete_eq_sequential) and its Argon2 instantiation (argon2_phase_local, argon2_no_read_of_foreign_segment, key_schedule_independent: every complete schedule of all 4·time phases equals the sequential fill). "
-                "Partial: that `go …; wg.Wait()` implements the modelled barrier with one block operation as the atomic step, and that every worker has finished when Key returns, is runtime behaviour: tied by the race detector on the portable build and by the goroutine count, not proved. The abstract system is linked to the CONCRETE model (Props/C09Link.lean): processSegment_is_task, model_fill_eq_seqFill (the model's processBlocks = the sequential run of the instantiated lane tasks, cell for cell) and key_eq_any_complete_schedule — for every input on the documented domain and EVERY family of complete schedules, running the phases and extractKey gives exactly the model's key, which is the RFC 9106 reference by C04.key_eq_rfc.",
+                "workers_joined_facts: the goroutine structure of processBlocks regenerated from the source (one `go processSegment` per lane inside the slice loop inside the pass loop, wg.Add(1) just before, wg.Wait() just after the lane loop, a fresh WaitGroup per slice, wg.Done() as the worker's last statement, no early exit) equals the shape the phase model assumes. Partial: that this syntax has the modelled meaning (sync.WaitGroup and goroutine semantics, one block operation as the atomic step) is runtime behaviour, tied by the race detector on the portable build and by the goroutine count, not proved. The abstract system is linked to the CONCRETE model (Props/C09Link.lean): processSegment_is_task, model_fill_eq_seqFill (the model's processBlocks = the sequential run of the instantiated lane tasks, cell for cell) and key_eq_any_complete_schedule — for every input on the documented domain and EVERY family of complete schedules, running the phases and extractKey gives exactly the model's key, which is the RFC 9106 reference by C04.key_eq_rfc.",
         "rule": "argonsched (purego, race): 12 (quick) / 300 (thorough) parameter tuples × 5 GOMAXPROCS settings with 4 yielding noise goroutines; key equal across settings and equal to the sequential model; argon: indexAlpha reference-set property on 3000 / 100000 tuples; non-trivial/distinct = distinct parameter tuples",
         "trusted": COMMON_TRUST + ["sync.WaitGroup / goroutine semantics", "Go memory model"],
         "assumptions": [],
